@@ -6,6 +6,7 @@ import (
 	"fmt"
 	"go/token"
 	"go/types"
+	"strings"
 
 	"golang.org/x/tools/go/ssa"
 )
@@ -161,6 +162,11 @@ func (c *Ctx) chanMode(fr *Frame, v ssa.Value) string {
 				if m, ok := c.V.specs.Chans[key]; ok {
 					return m
 				}
+			case *ssa.FreeVar:
+				key := c.V.fnKey(fr.fn) + ":" + a.Name()
+				if m, ok := c.V.specs.Chans[key]; ok {
+					return m
+				}
 			}
 		}
 	}
@@ -182,6 +188,11 @@ func (c *Ctx) chanSend(st *State, fr *Frame, ch Term, v Val, chv ssa.Value, pos 
 		st.heap[chLen] = sto(l, ch, mkInt(1))
 		return
 	}
+	if mode == "count" {
+		// counted channel: a send is recorded (ChLen is the number of sends so far); blocking is not modelled
+		l := c.heapCur(st, chLen, arrSort(SInt))
+		st.heap[chLen] = sto(l, ch, mk(SInt, "(+ %s 1)", sel(l, ch, SInt).S))
+	}
 	c.chanInvariantOblige(st, fr, chv, v, pos)
 }
 
@@ -200,6 +211,7 @@ func (c *Ctx) chanRecv(st *State, fr *Frame, ch Term, chv ssa.Value, commaOk boo
 		}
 		return r
 	}
+	c.noteCtxDone(st, ch, tTrue)
 	var r Val
 	if _, isStruct := et.Underlying().(*types.Struct); isStruct {
 		r = c.freshTyped(st, "recv", types.Typ[types.Int])
@@ -246,6 +258,7 @@ func (c *Ctx) selectInstr(st *State, fr *Frame, x *ssa.Select) {
 	tu := Tuple{idx, c.fresh("sel_ok", SBool)}
 	for i, s := range x.States {
 		if s.Dir == types.RecvOnly {
+			c.noteCtxDone(st, c.term(st, fr, s.Chan), eq(idx, mkInt(int64(i))))
 			et := s.Chan.Type().Underlying().(*types.Chan).Elem()
 			var rv Term
 			if _, isStruct := et.Underlying().(*types.Struct); isStruct {
@@ -287,18 +300,96 @@ func (c *Ctx) goStmt(st *State, fr *Frame, x *ssa.Go) {
 	}
 	// at-go assertions and callee precondition
 	c.atCallClauses(st, fr, &x.Call, x, fnv, args)
+	spawn := func(f *ssa.Function, bind []Val) {
+		fc := c.V.contractFor(f)
+		if fc == nil {
+			c.trusted["goroutine without contract (its effects on shared state are invisible to the spawner): "+c.V.fnKey(f)] = true
+			return
+		}
+		fc.Used = true
+		tgt := c.targetOfFn(f, args, bind)
+		env := c.calleeEnv(st, st, fr, tgt)
+		c.bindLets(env, fc)
+		for _, cl := range fc.Clauses {
+			if cl.Kind != "requires" {
+				continue
+			}
+			env.goal = true
+			g := env.evalBool(cl.E)
+			env.goal = false
+			c.oblige(st, fr, "pre", "go:"+shortName(tgt.key), cl.Label, x.Pos(), g, nil, cl.Src)
+		}
+		// from here on the goroutine may have made any progress: everything it may modify is unknown to the spawner
+		old := st.heapSnapshot()
+		if fc.HasMod {
+			for _, m := range fc.Modifies {
+				c.havocLoc(st, old, fr, env, m, tgt)
+			}
+		} else {
+			ws, all := c.V.writeSetOfTarget(c, tgt)
+			if all {
+				c.havocAll(st)
+			}
+			for _, key := range sortedKeys(ws) {
+				c.havocKey(st, key)
+			}
+		}
+	}
 	if cl, ok := fnv.(*Closure); ok {
-		for _, b := range cl.Bind {
-			if a, ok := b.(*Addr); ok && a.Kind == aCell {
+		spawn(cl.Fn, cl.Bind)
+		// captured variables the goroutine may assign are unknown to the spawner from here on
+		for i, b := range cl.Bind {
+			if a, ok := b.(*Addr); ok && a.Kind == aCell && i < len(cl.Fn.FreeVars) && freeVarWritten(cl.Fn, cl.Fn.FreeVars[i], 0) {
 				st.volatile[a.Key] = true
 			}
 		}
-		if fc := c.V.contractFor(cl.Fn); fc != nil {
-			c.checkPre(st, fr, fc, cl.Fn, c.closureEnvArgs(cl, args), x.Pos(), c.V.fnKey(cl.Fn))
-		}
 	} else if f := x.Call.StaticCallee(); f != nil {
-		if fc := c.V.contractFor(f); fc != nil {
-			c.checkPre(st, fr, fc, f, args, x.Pos(), c.V.fnKey(f))
+		spawn(f, nil)
+	}
+}
+
+// context.Context: ctx.Done() is the channel (ctxdone ctx); a receive from it succeeds only once the context is
+// cancelled or past its deadline, after which ctx.Err() is non-nil for good (ghost map CtxDone).
+const ctxDoneKey = "CtxDone"
+
+func (c *Ctx) noteCtxDone(st *State, ch Term, when Term) {
+	if !strings.HasPrefix(ch.S, "(ctxdone ") {
+		return
+	}
+	ctx := strings.TrimSuffix(strings.TrimPrefix(ch.S, "(ctxdone "), ")")
+	h := c.heapCur(st, ctxDoneKey, arrSort(SBool))
+	nh := c.heapHavoc(st, ctxDoneKey, h.Sort)
+	st.assume(eq(nh, ite(when, Term{S: fmt.Sprintf("(store %s %s true)", h.S, ctx), Sort: h.Sort}, h)))
+}
+
+// freeVarWritten: does f (or a closure it creates that captures the same variable) store to the captured variable fv?
+func freeVarWritten(f *ssa.Function, fv *ssa.FreeVar, depth int) bool {
+	if depth > 4 {
+		return true
+	}
+	for _, b := range f.Blocks {
+		for _, in := range b.Instrs {
+			switch x := in.(type) {
+			case *ssa.Store:
+				if x.Addr == ssa.Value(fv) {
+					return true
+				}
+			case *ssa.MakeClosure:
+				inner := x.Fn.(*ssa.Function)
+				for i, bnd := range x.Bindings {
+					if bnd == ssa.Value(fv) && i < len(inner.FreeVars) && freeVarWritten(inner, inner.FreeVars[i], depth+1) {
+						return true
+					}
+				}
+			case ssa.CallInstruction:
+				// the address of the variable handed to some other function
+				for _, a := range x.Common().Args {
+					if a == ssa.Value(fv) {
+						return true
+					}
+				}
+			}
 		}
 	}
+	return false
 }
